@@ -143,7 +143,7 @@ class CallGen:
             # element of the collection: First(), [0], [-1], [computed index] - then a typed method call on it
             # (a registered stream-collection class declares no subscripting, so only Iterable collections are indexed)
             how = r.choice(["First", "First", "[0]", "[-1]", "[1 - 1]", "[2]"])
-            if how == "First" or cm.endswith("_reg"):
+            if how == "First":
                 fu = ast.Call(func=attr(cu, "First"), args=[], keywords=[])
                 fx = ast.Call(func=attr(cx, "First"), args=[], keywords=[])
             else:
